@@ -11,7 +11,7 @@ pub fn params() -> Vec<(&'static str, u128)> {
 
 #[cfg(mainline_verif)]
 fn hooks() -> Vec<(&'static str, u128)> {
-    Vec::new()
+    dht::verif::consts()
 }
 #[cfg(not(mainline_verif))]
 fn hooks() -> Vec<(&'static str, u128)> {
